@@ -213,6 +213,21 @@ fn check_c13(cases: &[Case], results: &[Option<RunResult>]) -> Vec<Violation> {
                     digit_sup
                 } {
                     Some("sup_digits_wrapped")
+                } else if cases[b].slice == "span_wrap" && {
+                    // a link without visible content: whether it still counts as a link is decided by a
+                    // test that looks one level deep, so a span around its white space changes it (the
+                    // defect recorded for C08 under the same key)
+                    let mut empty_link = false;
+                    for r_ in [ra, rb] {
+                        walk(&dom_of(r_), &mut |n, _| {
+                            if n.is("a") && n.attr("href").is_some() && visible_chars(std::slice::from_ref(n)).is_empty() {
+                                empty_link = true;
+                            }
+                        });
+                    }
+                    empty_link
+                } {
+                    Some("empty_link_with_markup")
                 } else {
                     None
                 };
@@ -1024,6 +1039,13 @@ fn check_c09(cases: &[Case], results: &[Option<RunResult>]) -> Vec<Violation> {
             let all: Vec<String> = expect.keys().cloned().collect();
             for t in &all {
                 if all.iter().any(|u| u != t && u.contains(t.as_str())) {
+                    dup.insert(t.clone());
+                }
+            }
+            // ... nor tokens made of superscript digits only: a digits-only <sup>2</sup> prints the
+            // same glyph without the annotation a literal "\u{b2}" in a <sup> carries
+            for t in &all {
+                if t.chars().all(|ch| "\u{2070}\u{b9}\u{b2}\u{b3}\u{2074}\u{2075}\u{2076}\u{2077}\u{2078}\u{2079}".contains(ch)) {
                     dup.insert(t.clone());
                 }
             }
